@@ -356,7 +356,7 @@ impl Prop for C16P {
     fn plan(&self, tier: Tier, _seed: u64) -> Plan {
         let cells = (parents().len() * children().len()) as u64;
         let mut p = Plan::new(
-            vec![sec("pinned", 160), sec_ex("former-position-former-matrix", cells), sec("random-programs", tier.pick(25_000, 500_000)), sec("elaborated-terms", tier.pick(12_000, 240_000))],
+            vec![sec("pinned", 160), sec_ex("former-position-former-matrix", cells), sec("random-programs", tier.pick(50_000, 500_000)), sec("elaborated-terms", tier.pick(12_000, 240_000))],
             "every one of 41 (parent former, operand position) slots filled with every one of 43 child formers (3 fillers each; implicit and placeholder binders, used and unused parameters, holes, groups of 1-2 definitions), then random well-scoped programs, and the elaborated term and type of generated typed programs (omitted annotations filled in by solved holes) as `gram check` displays them, over the full syntax and the corpus; each is parsed, printed with gram's Display and read back in the same scope; non-trivial = distinct printed text",
         );
         p.assumptions = vec![
